@@ -16,7 +16,8 @@ SPEC = dict(
          "InvalidID), buffer sizes 1-64, GOMAXPROCS 1-16, per-connection faults (dial refused, write error inside the node-information "
          "frame, write error at an arbitrary byte offset later, peer that stops reading = stalled writer, peer close), re-stalls, Close "
          "after / during the emitters / while the writer is stalled; in a quarter of the scenarios some lazy builders PANIC on the writer "
-         "goroutine (1-30 %) and the emitters keep emitting afterwards; padded payloads (1-2048 bytes); every 30th scenario is a "
+         "goroutine (1-30 %) and the emitters keep emitting afterwards; in another quarter some lazy builders RETURN NIL (3-60 %: the client "
+         "sends a header-only frame, identified by a discriminator used for that call only); padded payloads (1-2048 bytes); every 30th scenario is a "
          "RECONNECT STORM (every connection dies after 1-4 frames, ReconnectMin = 1 ns, 3-8 emitters alternating Emit and a follow-up "
          "of the id just returned without pausing, 800-1700 attempts each, ~100-300 connections per scenario) so that emit calls are "
          "regularly in flight across a whole disconnect -> epoch bump -> reconnect; 900 scenarios in quick, 30000 in thorough. Observed: the ids "
